@@ -10,22 +10,35 @@ From JV Require Import Lib.Base Model.C19PathMode Spec.C19Spec.
    3 cc-through-file  : "cc", the first existing ancestor is NOT a directory, yet the nearest
                         directory further up is writeable and no r/w/x flag rejects the missing path
                         (the while loop climbs past the non-directory) *)
-Definition finding_class (fl : mfl) (f : facts) : N :=
-  if fcc fl && negb (par_dir f) && negb (anc_dir f) && dir_w f && negb (fr fl || fw fl || fx fl) then 3
-  else if fF fl && negb (exists_ f) && sat fl f then 1
-  else if ff fl && fc fl && exists_ f && kind_eqb (kd f) KFifo && sat fl f then 2
+(* A class whose repair has landed (`fxs`) is no longer outside the guard: the theorem then covers those inputs.
+   (`s` = sat fl f, passed in so that the exhaustive table evaluates it once per row.) *)
+Definition finding_class_s (s : bool) (fxs : fixes) (fl : mfl) (f : facts) : N :=
+  if negb (fx_cc fxs)
+     && fcc fl && negb (par_dir f) && negb (anc_dir f) && dir_w f && negb (fr fl || fw fl || fx fl) then 3
+  else if negb (fx_F fxs) && fF fl && negb (exists_ f) && s then 1
+  else if negb (fx_fifo fxs) && ff fl && fc fl && exists_ f && kind_eqb (kd f) KFifo && s then 2
   else 0.
 
-Definition guard (fl : mfl) (f : facts) : bool := N.eqb (finding_class fl f) 0.
+Definition finding_class_fx (fxs : fixes) (fl : mfl) (f : facts) : N := finding_class_s (sat fl f) fxs fl f.
+
+Definition guard_fx (fxs : fixes) (fl : mfl) (f : facts) : bool := N.eqb (finding_class_fx fxs fl f) 0.
 
 (* what the code does inside each finding class *)
-Definition defect_outcome (fl : mfl) (f : facts) : outcome :=
-  match finding_class fl f with
+Definition defect_outcome_k (k : N) (s : bool) (fxs : fixes) (fl : mfl) : outcome :=
+  match k with
   | 1 => OsErr
   | 2 => PathErr
-  | 3 => if fF fl then OsErr else Accept
-  | _ => if sat fl f then Accept else PathErr
+  | 3 => if fF fl && negb (fx_F fxs) then OsErr else Accept
+  | _ => if s then Accept else PathErr
   end%N.
+
+Definition defect_outcome_fx (fxs : fixes) (fl : mfl) (f : facts) : outcome :=
+  defect_outcome_k (finding_class_fx fxs fl f) (sat fl f) fxs fl.
+
+(* the pinned tree *)
+Definition finding_class := finding_class_fx no_fixes.
+Definition guard := guard_fx no_fixes.
+Definition defect_outcome := defect_outcome_fx no_fixes.
 
 (* fact records the operating system can produce *)
 Definition consistent (f : facts) : bool :=
